@@ -8,6 +8,7 @@ import (
 	"sort"
 	"strconv"
 	"strings"
+	"sync/atomic"
 	"testing"
 	"time"
 
@@ -349,6 +350,7 @@ type c20xWorld struct {
 	apiError            string
 	failArmed, failUsed bool   // injected failure of the next NodeSLO write (Create/Update/Delete)
 	afterCMRead         func() // one-shot hook: runs right after the next read of the slo-controller ConfigMap through the client
+	flushSeen           int64     // wiring harness: number of flush requests the manager's worker has reconciled (atomic)
 	wire                *c20wWire // non-nil: the controller runs inside a real manager (verif_c20_wiring_test.go); events go through its watches
 }
 
@@ -399,6 +401,9 @@ func (w *c20xWorld) c20xInject(obj client.Object) error {
 func (w *c20xWorld) newClient() client.Client {
 	return fake.NewClientBuilder().WithScheme(w.scheme).WithInterceptorFuncs(interceptor.Funcs{
 		Get: func(ctx context.Context, cl client.WithWatch, key client.ObjectKey, obj client.Object, opts ...client.GetOption) error {
+			if _, ok := obj.(*slov1alpha1.NodeSLO); ok && strings.HasPrefix(key.Name, c20wFlushPrefix) {
+				atomic.AddInt64(&w.flushSeen, 1) // wiring harness: the worker has reached the flush request (see settle)
+			}
 			err := cl.Get(ctx, key, obj, opts...)
 			if _, ok := obj.(*corev1.ConfigMap); ok && w.afterCMRead != nil && key.Name == sloconfig.SLOCtrlConfigMap && key.Namespace == sloconfig.ConfigNameSpace {
 				f := w.afterCMRead
